@@ -90,6 +90,8 @@ def build_namespace(spec, which, tree):
         top.valid_type = TYPES[tree['valid_type']]
     top.validator = VALIDATORS[tree['validator']]
     top.populate_defaults = tree['populate_defaults']
+    if tree.get('help') is not None:
+        top.help = tree['help']
     _declare(spec, which, '', tree)
 
 
@@ -105,12 +107,16 @@ def _declare(spec, which, prefix, tree):
             }
             if sub['valid_type'] is not None:
                 kwargs['valid_type'] = TYPES[sub['valid_type']]
+            if sub.get('help') is not None:
+                kwargs['help'] = sub['help']
             getattr(spec, which + '_namespace')(path, **kwargs)
             _declare(spec, which, path + '.', sub)
         else:
             kwargs = {'required': sub['required'], 'validator': VALIDATORS[sub['validator']]}
             if sub['valid_type'] is not None:
                 kwargs['valid_type'] = TYPES[sub['valid_type']]
+            if sub.get('help') is not None:
+                kwargs['help'] = sub['help']
             if which == 'input' and sub.get('default') is not None:
                 mode, value = sub['default']
                 kwargs['default'] = _const(value) if mode == 'callable' else copy.deepcopy(value)
